@@ -794,11 +794,35 @@ func (ma *ModAnalysis) computeAccess(fns []*ssa.Function) {
 							a[n] = true
 							changed = true
 						}
+						if u, ok := st.Underlying().(*types.Struct); ok {
+							if k := n + "." + u.Field(x.Field).Name(); !a[k] {
+								a[k] = true
+								changed = true
+							}
+						}
 					case *ssa.Field:
 						n := ma.e.structName(x.X.Type())
 						if !a[n] {
 							a[n] = true
 							changed = true
+						}
+						if u, ok := x.X.Type().Underlying().(*types.Struct); ok {
+							if k := n + "." + u.Field(x.Field).Name(); !a[k] {
+								a[k] = true
+								changed = true
+							}
+						}
+					case *ssa.UnOp:
+						// whole-struct load/copy (*p): every field is read
+						if x.Op == token.MUL {
+							if pt, ok := x.X.Type().Underlying().(*types.Pointer); ok {
+								if _, isSt := pt.Elem().Underlying().(*types.Struct); isSt {
+									if k := ma.e.structName(pt.Elem()) + ".*"; !a[k] {
+										a[k] = true
+										changed = true
+									}
+								}
+							}
 						}
 					}
 					var c *ssa.CallCommon
@@ -873,6 +897,15 @@ func (ma *ModAnalysis) computeAccess(fns []*ssa.Function) {
 			break
 		}
 	}
+}
+
+// accessesField reports whether fn (transitively) touches field f of the struct named st.
+func (ma *ModAnalysis) accessesField(fn *ssa.Function, st, f string) bool {
+	a := ma.acc[fn]
+	if a == nil {
+		return true
+	}
+	return a["*"] || a[st+"."+f] || a[st+".*"]
 }
 
 // accesses reports whether fn (transitively) touches fields of the struct named st.
